@@ -155,6 +155,7 @@ func (f *File) isDotImport(path string) bool {
 }
 
 func (f *File) register(path string) string {
+	verifHook("register", f, path)
 	if f.isLocal(path) {
 		// notest
 		// should never get here because in Qual the packageToken will be null,
